@@ -40,7 +40,13 @@ txt += ["", f"{nd} of {len(rows)} are reported with a replayed witness (exit 1 a
         "  but the replay did not reproduce until witnesses were encoded before the call and decoded as fresh base tensors.",
         "* C01 hand mutant (scale transposed on square tensors) — square shapes were missing from the covering shape subset.",
         "", "Hand-written mutants under `mutants/` (floor for round, clamp bound off by one, cast before clamp, wrong-axis scale) are reported",
-        "by C01 as well; `floor(x+0.5)` is not (it is not a violation: ties are equidistant).", ""]
+        "by C01 as well; `floor(x+0.5)` is not (it is not a violation: ties are equidistant).", "",
+        "**Refactor corpus (must stay silent).** `refactors/` holds behaviour-preserving rewrites: the EMA written as",
+        "`scale + (new - scale)(1 - m)`; `torch.clip` and swapped operand order in quantize/dequantize; `-round(rmin/scale)` for",
+        "`round(-rmin/scale)` and `base.amax` on the already absolute tensor in the optimizers; `torch.stack(...).reshape` for `torch.cat`",
+        "in the Python unpack kernel and `reshape` for `view` in the integer GEMM wrapper. Run with `tools_mutant.sh` against C12, C01,",
+        "C02, C03, C16, C04, C07: every check exits 0 with no VIOLATION line (the first of them exposed the C12 tolerance false alarm",
+        "described in section 13, which was corrected).", ""]
 s = open(os.path.join(ROOT, "DESIGN.md")).read()
 if "## 14. Seeded defects" in s:
     s = s[: s.index("## 14. Seeded defects")]
